@@ -526,6 +526,13 @@ def check_models(ck, cases, prefix="c13"):
                     ctx = [coq_ev(x) for x in c["tr"][max(0, idx - 7):idx + 1]]
                     ck.obligation(f"correspondence:trace-accepted-by-model:{name}", False,
                                   f"model rejects event #{idx}; cfg {c['cfg']}; context (last = rejected): {ctx}")
+                    # the rejected history is the concrete failing input: the scenario replays it on the real code
+                    ck.violation(f"the real consumer did something the start-position model (whose guards are the "
+                                 f"property's clauses) does not allow: partition {c['p']} of scenario {c['sc']['id']}, "
+                                 f"event #{idx} {ctx[-1] if ctx else ''} after {ctx[:-1]}",
+                                 {"scenario": c["sc"], "partition": c["p"], "cfg": c["cfg"], "rejected_event_index": idx,
+                                  "context": ctx},
+                                 signature=f"trace-rejected:{(ctx[-1] if ctx else '').split(' ')[0]}")
                 continue
             (mpos, mrst, mfirst, morigin, msurf) = v[1]
             mfirst = opt_val(mfirst)
